@@ -94,6 +94,7 @@ func Gen(prop, tier string, seed uint64) *kernel.Plan {
 	case "C18":
 		cfg.Oracles["notify"], cfg.Oracles["realtime"] = true, true
 		cfg.HoldPub = g.Chance(1, 2)
+		cfg.Colls = g.Pick([]int{2, 1}) + 1 // the same keys in two collections: two topics
 	case "C19":
 		cfg.Oracles["rest"], cfg.Oracles["log"] = true, true
 	}
@@ -387,6 +388,16 @@ func (c *genCtx) decorate(e *Ev) {
 		// a request that fails inside the server (after it was accepted) is answered with an error, too
 		if g.Chance(1, 5) {
 			e.MF = append(e.MF, MongoFault{At: g.Range(3, 12), Kind: []string{"errBefore", "errAfter"}[g.Intn(2)]})
+		}
+	case "C17":
+		// an interrupted commit right before a reset or a cross-collection request
+		if g.Chance(1, 6) {
+			e.MF = append(e.MF, MongoFault{At: g.Range(4, 9), Kind: []string{"errBefore", "errAfter"}[g.Intn(2)]})
+		}
+	case "C18":
+		// the answer to a manual client's push is lost: the retry stores nothing and announces nothing
+		if g.Chance(1, 5) {
+			e.Resp = "drop"
 		}
 	case "C19":
 		// a commit that fails half way right before a REST patch
